@@ -19,7 +19,7 @@ func init() {
 	register(&Prop{
 		ID:         "C16",
 		Title:      "DynamoDB usage restrictions are detected",
-		Decided:    "(R1) the reserved-word table equals the reference list of 573 words in both directions (a missing word under-rejects, an extra word rejects a legal request); (R2) a bare name is looked up in the environment only through one funnel in which the reserved-word test on the upper-cased literal precedes the lookup whenever the name is in a top-level position, and every call passes toplevel=true except the map-member position; (R3) whether a supplied placeholder is 'used' is decided on whole placeholders (match followed by a boundary test, or tokens), not by substring containment; (R4) the two placeholder-key patterns are ^#[A-Za-z0-9_]+$ and ^:[A-Za-z0-9_]+$, every supplied key is matched and a mismatch is an error; (R5) a #name/:value that is not bound yields an error rather than an undefined value; (R6) the key condition's shape is validated against the key schema before iteration; (R7) batch writes: the limit constant is 25, compared with > against the total over all tables, and a request that is neither or both put and delete is rejected; (R8) the restrictions are detected while an operand is evaluated: every evaluator of a node with several operand fields evaluates all of them before it returns a non-error result (no short-circuit that lets a reserved word or an undefined function in the skipped operand go unnoticed).",
+		Decided:    "(R1) the reserved-word table equals the reference list of 573 words in both directions (a missing word under-rejects, an extra word rejects a legal request); (R2) a bare name is looked up in the environment only through one funnel in which the reserved-word test on the upper-cased literal precedes the lookup whenever the name is in a top-level position, and every call passes toplevel=true except the map-member position; (R3) whether a supplied placeholder is 'used' is decided on whole placeholders (match followed by a boundary test, or tokens), not by substring containment; (R4) the two placeholder-key patterns are ^#[A-Za-z0-9_]+$ and ^:[A-Za-z0-9_]+$, every supplied key is matched and a mismatch is an error; (R5) a #name/:value that is not bound yields an error rather than an undefined value; (R6) the key condition's shape is validated against the key schema before iteration; (R7) batch writes: the limit constant is 25, compared with > against the total over all tables, and a request that is neither or both put and delete is rejected; (R8) the restrictions are detected while an operand is evaluated: every evaluator of a node with several operand fields evaluates all of them before it returns a non-error result (no short-circuit that lets a reserved word or an undefined function in the skipped operand go unnoticed); (R9) every request is validated on its own: the validators consult and update no package-level mutable state (= C18.R6) – a remembered verdict would let a later, different request through.",
 		NotDecided: "completeness of the rejection for every syntactic position of every reserved word beyond the identifier-evaluation funnel of R2; the reference list itself is a transcription that cannot be re-fetched offline (trusted base).",
 		Assumes:    []string{"checker/ref/reserved_words.txt (573 words) is the AWS 'Reserved words in DynamoDB' list, including its documented spellings FLATTERN, INNTER, LOGED"},
 		Rules: []RuleDef{
@@ -31,6 +31,7 @@ func init() {
 			{ID: "R6", Desc: "key-condition shape validated against the key schema before iteration", Run: c16R6},
 			{ID: "R7", Desc: "batch write limits: 25 over all tables, exactly one of put/delete (T-TABLE)", Run: c16R7},
 			{ID: "R8", Desc: "no short-circuit: every operand of a node is evaluated (and thereby checked) before a non-error result (T-DOM)", Run: c16R8},
+			{ID: "R9", Desc: "validation is stateless: no package-level mutable state is consulted or updated (= C18.R6)", Run: aliasRule("R9", c18R6, nil)},
 		},
 	})
 }
